@@ -431,7 +431,11 @@ class Lifecycle:
         self.rel = rel
         objmap = {('CONNP', 'in_tx'): 'INTX', ('CONNP', 'out_tx'): 'OUTTX', ('INTX', 'connp'): 'CONNP', ('OUTTX', 'connp'): 'CONNP',
                   ('CONNP', 'cfg'): 'CFG', ('INTX', 'cfg'): 'CFG', ('OUTTX', 'cfg'): 'CFG'}
-        self.eng = Engine(db, objmap, TR, self.on_call, lambda n: n in rel, max_depth=12, on_assign=self.on_assign)
+        # the other direction's own fields are environment: leaving them untracked (TOP) keeps the abstraction sound and much smaller
+        tracked = TR - ({'out_state', 'out_status', 'response_transfer_coding', 'out_tx'} if direction == 'in' else {'in_state', 'in_status', 'request_transfer_coding', 'request_progress'})
+        if direction == 'in':
+            tracked |= {'out_status'}      # written together with in_status by the tunnel probe
+        self.eng = Engine(db, objmap, tracked, self.on_call, lambda n: n in rel, max_depth=12, on_assign=self.on_assign)
         self.progress_regress = collections.OrderedDict()
 
     # -------- monitor
@@ -619,16 +623,65 @@ class Lifecycle:
         return self
 
 
-def check_c05(db, res, budget_s=600, directions=('in', 'out')):
+def lifecycle_result(db, d, budget_s):
+    """run (or reuse, keyed by a hash of the extracted facts) the exploration of one direction"""
+    import hashlib, json, os
+    from .facts import VERIF
+    h = hashlib.sha256()
+    for u in sorted(db.units):
+        h.update(json.dumps(db.units[u]['functions'], sort_keys=True).encode())
+    h.update(open(__file__, 'rb').read())
+    p = os.path.join(VERIF, 'work', 'typestate-%s-%s.json' % (d, h.hexdigest()[:16]))
+    if os.path.exists(p):
+        r = json.load(open(p))
+        if r['stats']['complete'] or r['budget'] >= budget_s:
+            r['cached'] = True
+            return r
+    lc = Lifecycle(db, d, budget_s).explore()
+    r = dict(budget=budget_s, stats=lc.stats, side=lc.side,
+             viol=[[list(map(str, k)), list(v)] for k, v in lc.viol.items()],
+             sticky=list(lc.sticky.values()), regress=[[list(map(str, k)), v] for k, v in lc.progress_regress.items()], cached=False)
+    os.makedirs(os.path.dirname(p), exist_ok=True)
+    json.dump(r, open(p, 'w'))
+    return r
+
+
+def check_sticky(db, res, rule, budget_s=900):
+    """thorough clause shared by C09 and C16: no callback of a direction runs in a driver call that was entered with
+    that direction in ERROR, STOP or TUNNEL (all abstract states that the exploration reaches)"""
+    res.rule(rule, '(typestate) in every reachable abstract state with status ERROR / STOP / TUNNEL a driver call runs no callback of that direction')
+    for d in ('in', 'out'):
+        r = lifecycle_result(db, d, budget_s)
+        side = r['side']
+        res.analysed['typestate %s' % side] = r['stats']
+        if r['sticky']:
+            for msg in r['sticky']:
+                res.violated(rule, '%s:callback-in-final-state' % side, msg)
+        elif r['stats']['complete']:
+            res.holds(rule, '%s:no-callback-in-final-state' % side, 'holds in all %d between-call abstract states' % r['stats']['between_call_states'])
+        else:
+            res.unknown(rule, '%s:exploration' % side, 'abstract state space not exhausted within the budget (%d states explored, none violating)' % r['stats']['between_call_states'])
+
+
+def check_c05(db, res, budget_s=900, directions=('in', 'out')):
     res.rule('C05.c', 'callback order and no callback after completion, for all inputs, chunkings and callback return values: the automaton of hook events of the abstract system (finite typestate abstraction of the driver loop and every state function, extracted from the code) is included in the rank-monotonic specification')
     for d in directions:
-        lc = Lifecycle(db, d, budget_s).explore()
-        res.analysed['typestate %s' % lc.side] = lc.stats
-        side = lc.side
+        r = lifecycle_result(db, d, budget_s)
+        stats = r['stats']
+        res.analysed['typestate %s' % r['side']] = stats
+        side = r['side']
+
+        class _L:
+            pass
+        lc = _L()
+        lc.stats = stats
+        lc.viol = collections.OrderedDict((tuple(k), (v[0], v[1])) for k, v in r['viol'])
+        lc.progress_regress = collections.OrderedDict((tuple(k), v) for k, v in r['regress'])
+        lc.sticky = collections.OrderedDict((i, m) for i, m in enumerate(r['sticky']))
         if not lc.stats['complete']:
             res.unknown('C05.c', '%s:exploration' % side, 'the abstract state space was not exhausted within %d s (%d between-call states, %d pending): inclusion is not established for this direction' % (budget_s, lc.stats['between_call_states'], lc.stats['pending']))
         for (sd, ev, m, kind, sf), (loc, stack) in lc.viol.items():
-            prev = {-1: 'a fresh transaction', 0: 'START', 1: 'LINE', 2: 'HEADERS', 3: 'BODY_DATA', 4: 'TRAILER', 'DONE': 'COMPLETE', 'NONE': 'no transaction'}.get(m, str(m))
+            prev = {'-1': 'a fresh transaction', '0': 'START', '1': 'LINE', '2': 'HEADERS', '3': 'BODY_DATA', '4': 'TRAILER', 'DONE': 'COMPLETE', 'NONE': 'no transaction'}.get(str(m), str(m))
             key = '%s:%s-after-%s:in:%s' % (sd, ev, prev.replace(' ', '-'), sf)
             res.violated('C05.c', key, 'abstract counterexample: the %s callback %s can be delivered after %s (%s) on a path through %s' % (sd, ev.upper(), prev, kind, ' > '.join(stack)), loc, stack=stack)
         for k, loc in lc.progress_regress.items():
